@@ -86,17 +86,16 @@ package linker
 //@ spec func depsAreJS(c *linkerContext) bool = forall q *js_ast.Part, k int :: 0 <= k && k < len(q.Dependencies) ==> isJSFile(c, q.Dependencies[k].SourceIndex)
 
 // An import record that markFileLiveForTreeShaking must keep for its side effects
-// (Index32.IsValid is flippedBits != 0, GetIndex is ^flippedBits, Flags.Has is flags&flag != 0).
 //@ spec func jsRecord(c *linkerContext, sourceIndex uint32, r uint32) ast.ImportRecord = c.graph.Files[sourceIndex].InputFile.Repr.(*graph.JSRepr).AST.ImportRecords[r]
 //@ spec func keptImport(c *linkerContext, sourceIndex uint32, r uint32) bool =
 //@     jsRecord(c, sourceIndex, r).Kind == ast.ImportStmt &&
-//@     (jsRecord(c, sourceIndex, r).SourceIndex.flippedBits != 0 ?
-//@         (c.graph.Files[4294967295 - jsRecord(c, sourceIndex, r).SourceIndex.flippedBits].InputFile.SideEffects.Kind == graph.HasSideEffects || c.options.IgnoreDCEAnnotations) :
-//@         (jsRecord(c, sourceIndex, r).Flags & ast.IsExternalWithoutSideEffects) == 0)
+//@     (jsRecord(c, sourceIndex, r).SourceIndex.IsValid() ?
+//@         (c.graph.Files[jsRecord(c, sourceIndex, r).SourceIndex.GetIndex()].InputFile.SideEffects.Kind == graph.HasSideEffects || c.options.IgnoreDCEAnnotations) :
+//@         !jsRecord(c, sourceIndex, r).Flags.Has(ast.IsExternalWithoutSideEffects))
 
 //@ spec func importTargetLive(c *linkerContext, sourceIndex uint32, r uint32) bool =
-//@     keptImport(c, sourceIndex, r) && jsRecord(c, sourceIndex, r).SourceIndex.flippedBits != 0 ==>
-//@         c.graph.Files[4294967295 - jsRecord(c, sourceIndex, r).SourceIndex.flippedBits].IsLive
+//@     keptImport(c, sourceIndex, r) && jsRecord(c, sourceIndex, r).SourceIndex.IsValid() ==>
+//@         c.graph.Files[jsRecord(c, sourceIndex, r).SourceIndex.GetIndex()].IsLive
 
 // Size assumption: a file has fewer than 2^32 parts (part indices are stored as uint32 everywhere).
 //@ spec func partsFit(c *linkerContext) bool = forall s uint32 :: isJSFile(c, s) ==> len(jsParts(c, s)) <= 4294967296
